@@ -94,7 +94,8 @@ hs_xstr = (Regex(r"[a-zA-Z0-9_]+") +
            Suppress(Literal('(')) +
            hs_str +
            Suppress(Literal(')'))).setParseAction(
-    lambda toks: [XStr(toks[0], toks[1])]
+    # Bin("mime/type") is how Project Haystack 3.0 spells a Bin.
+    lambda toks: [Bin(toks[1]) if toks[0] == 'Bin' else XStr(toks[0], toks[1])]
 )
 
 hs_dateSep = CaselessLiteral('T')
@@ -204,7 +205,7 @@ hs_ref = (Suppress(Literal('@')) + Combine(ZeroOrMore(hs_refChar)) + Optional(
     lambda toks: [Ref(toks[0], toks[1] if len(toks) > 1 else None)])
 
 hs_val <<= hs_list | hs_dict | \
-           hs_ref | hs_bin | hs_xstr | \
+           hs_ref | hs_xstr | hs_bin | \
            hs_dateTime | hs_date | hs_time | \
            hs_coord | \
            hs_number | hs_na | hs_null | hs_marker | hs_bool | \
